@@ -1,6 +1,7 @@
 package main
 
 import (
+	"bytes"
 	"fmt"
 	"syscall"
 	"unsafe"
@@ -339,7 +340,15 @@ func buildPool(m *vs.Stream, freeze bool) (*pool, error) {
 		}
 		switch m.Intn(3, "buf/text") {
 		case 0:
-			addBuf("wkt", []byte(g.AsText()))
+			// tags in upper, lower or mixed case (all legal WKT)
+			txt := []byte(g.AsText())
+			switch m.Intn(3, "buf/case") {
+			case 1:
+				txt = bytes.ToLower(txt)
+			case 2:
+				txt = bytes.Title(bytes.ToLower(txt))
+			}
+			addBuf("wkt", txt)
 		case 1:
 			js, _ := g.MarshalJSON()
 			addBuf("geojson", js)
